@@ -217,7 +217,15 @@ def confirm(cand, known):
     if cand.get('kernel') == 'c':
         from checks.c01 import native_views, judge_native_views
         res = native_views(cand['history'])
-        probs = [p for p in judge_native_views(cand['history'], res, want_heights=False) if 'get_balance' in p]
+        # the property itself on the real endpoints: after every arrival, get_balance = sum of the values get_utxos returns
+        probs = []
+        for stp in res.get('steps', []):
+            for a in ('A', 'B'):
+                ans = stp[a]
+                if isinstance(ans, dict) and 'utxos' in ans and stp.get('balance_' + a) != sum(u[2] for u in ans['utxos']):
+                    probs.append('after block %s: get_balance(%s) = %s but get_utxos returns %s (sum %s)' % (
+                        stp['after'], a, stp.get('balance_' + a), [(u[0], u[1], u[2]) for u in ans['utxos']], sum(u[2] for u in ans['utxos'])))
+        probs += [p for p in judge_native_views(cand['history'], res, want_heights=False) if 'get_balance' in p]
         doc = dict(property=PROP, role=cand['role'], summary={k: v for k, v in cand.items() if k != 'shape'}, problems=probs[:3])
         return ('violation' if probs else 'not-reproduced'), doc
     ts = btc.TreeScenario(list(cand['shape'][1]))
